@@ -4,6 +4,7 @@ go 1.23
 
 require (
 	github.com/go-logr/stdr v1.2.2
+	github.com/google/uuid v1.2.0
 	github.com/ovn-org/libovsdb v0.0.0
 	pgregory.net/rapid v1.3.0
 )
